@@ -36,6 +36,7 @@ type Scenario struct {
 	Fmt        string
 	Src        string   // schema package directory
 	Args       []string // interface arguments
+	Seed       int64    // seed of a generated schema package (Src "rnd")
 	OnlyProps  []string // restrict the properties this scenario's obligations serve (known-finding witnesses)
 	// filled by the run
 	Dir      string // directory moq ran in
@@ -50,6 +51,9 @@ type Scenario struct {
 
 func (s *Scenario) flagString() string {
 	var f []string
+	if s.Src == "rnd" {
+		f = append(f, fmt.Sprintf("rnd%d", s.Seed))
+	}
 	if s.Stub {
 		f = append(f, "stub")
 	}
@@ -73,9 +77,29 @@ func (s *Scenario) flagString() string {
 
 var defaultArgs = []string{"Schema", "Emb:EmbeddedMock", "Empty", "GSchema", "GOne", "GLower"}
 
-func scenarios(tier string) []*Scenario {
-	var out []*Scenario
+var verifSeed int64
+
+func scenarios(tier string) (out []*Scenario) {
 	id := 0
+	defer func() {
+		if tier != "thorough" {
+			return
+		}
+		// seed-driven schema variants: three generated packages, all flag combinations in place, two elsewhere
+		for v := int64(0); v < 3; v++ {
+			seed := verifSeed*1000 + v
+			for _, stub := range []bool{false, true} {
+				for _, skip := range []bool{false, true} {
+					for _, resets := range []bool{false, true} {
+						s := &Scenario{Name: fmt.Sprintf("r%02d", len(out)), Src: "rnd", Seed: seed, Stub: stub, SkipEnsure: skip, Resets: resets, Args: []string{"generated"}}
+						out = append(out, s)
+					}
+				}
+			}
+			out = append(out, &Scenario{Name: fmt.Sprintf("r%02d", len(out)), Src: "rnd", Seed: seed, PkgMode: "other", Args: []string{"generated"}},
+				&Scenario{Name: fmt.Sprintf("r%02d", len(out)+1), Src: "rnd", Seed: seed, PkgMode: "test", Stub: true, Resets: true, Args: []string{"generated"}})
+		}
+	}()
 	add := func(s Scenario) {
 		s.Name = fmt.Sprintf("c%02d", id)
 		id++
@@ -220,7 +244,13 @@ func PrepareStage2(repo, schemaDir string, scen []*Scenario, specs *SpecDB) (*St
 	sem := make(chan struct{}, 12)
 	for _, sc := range scen {
 		sc.Dir = filepath.Join(s2.ModDir, sc.Name, sc.Src)
-		if err := copyDir(filepath.Join(schemaDir, sc.Src), sc.Dir, nil); err != nil {
+		if strings.HasPrefix(sc.Src, "rnd") {
+			ifs, err := genRandomSchema(sc.Seed, sc.Dir)
+			if err != nil {
+				return nil, err
+			}
+			sc.Args = ifs
+		} else if err := copyDir(filepath.Join(schemaDir, sc.Src), sc.Dir, nil); err != nil {
 			return nil, err
 		}
 		sc.SrcPkg = "ex.com/schema/" + sc.Name + "/" + sc.Src
